@@ -174,7 +174,7 @@ man = {
  "hooks": {"guard": "PANDAPIPES_VERIF",
            "enable": "PANDAPIPES_VERIF=1 in the environment of the checking process (set by ./check); /venv imports /repo/src directly, nothing is built",
            "baseline_off_cmd": "cd /repo && env -u PANDAPIPES_VERIF /venv/bin/python -m pytest -ra -q -p no:cacheprovider --timeout=900 --continue-on-collection-errors",
-           "source_commits": ["8629ce7", "bfb9390"], "add_only": True},
+           "source_commits": ["8629ce7", "bfb9390", "911b6a0"], "add_only": True},
  "engines": [{"name": "tlc", "path": "/usr/local/bin/tlc", "serves_properties": sorted(CHECKS),
               "kind_free_text": "TLC 1.8 explicit-state model checker over /verif/spec/*.tla; python harness in /verif/harness"}],
  "checks": [], "not_applicable": [],
